@@ -4,6 +4,7 @@ import (
 	"fmt"
 	"go/ast"
 	"go/constant"
+	"go/printer"
 	"go/token"
 	"go/types"
 	"math"
@@ -87,10 +88,11 @@ type Flow struct {
 }
 
 type Exec struct {
-	retTextSeen    map[int]int // per text-anchored ret hint: matching return statements seen so far
-	forIdx         types.Object   // init variable of the classic for loop about to be processed
-	loopIdxStack   []types.Object // per active execLoop: its $i variable (nil for none)
-	closureIdx     []*Term // indices of the callee iterations whose callback literal is being executed (innermost last)
+	loopOverride   map[int]*LoopSpec // contracts of canonical counted loops completed by autoCountedLoop
+	retTextSeen    map[int]int       // per text-anchored ret hint: matching return statements seen so far
+	forIdx         types.Object      // init variable of the classic for loop about to be processed
+	loopIdxStack   []types.Object    // per active execLoop: its $i variable (nil for none)
+	closureIdx     []*Term           // indices of the callee iterations whose callback literal is being executed (innermost last)
 	stmtHintActive map[int]int
 	w              *World
 	fi             *FuncInfo
@@ -1967,12 +1969,81 @@ func (ex *Exec) assignedVars(n ast.Node) []types.Object {
 }
 
 func (ex *Exec) loopSpec(n int) *LoopSpec {
+	if ls := ex.loopOverride[n]; ls != nil {
+		return ls
+	}
 	if ex.fc != nil {
 		if ls := ex.fc.Loops[n]; ls != nil {
 			return ls
 		}
 	}
 	return &LoopSpec{}
+}
+
+// autoCountedLoop: a canonical counted loop `for i := 0; i < B; i++ { ... }` (i not assigned in the body) whose contract has
+// no `decreases` gets the range invariant and the measure a range loop has implicitly - both as PROVED obligations
+// (`inv.loopN.*.AutoRange`, `dec.loopN`), so a bound that changes inside the body still fails. Loops with a `decreases`
+// clause are left exactly as written.
+func (ex *Exec) autoCountedLoop(st *State, n int, s *ast.ForStmt, idx types.Object) {
+	if idx == nil || s.Cond == nil || s.Post == nil {
+		return
+	}
+	ls := ex.loopSpec(n)
+	if ls.Decreases != nil {
+		return
+	}
+	as, ok := s.Init.(*ast.AssignStmt)
+	if !ok || len(as.Rhs) != 1 {
+		return
+	}
+	if lit, ok := as.Rhs[0].(*ast.BasicLit); !ok || lit.Value != "0" {
+		return
+	}
+	cond, ok := s.Cond.(*ast.BinaryExpr)
+	if !ok || cond.Op != token.LSS {
+		return
+	}
+	if id, ok := cond.X.(*ast.Ident); !ok || ex.info.Uses[id] != idx {
+		return
+	}
+	inc, ok := s.Post.(*ast.IncDecStmt)
+	if !ok || inc.Tok != token.INC {
+		return
+	}
+	if id, ok := inc.X.(*ast.Ident); !ok || ex.info.Uses[id] != idx {
+		return
+	}
+	if ex.assignsWhole(s.Body, idx) {
+		return
+	}
+	var buf strings.Builder
+	if err := printer.Fprint(&buf, ex.w.Fset, cond.Y); err != nil {
+		return
+	}
+	b := buf.String()
+	okSpec := func() (ok bool) {
+		defer func() {
+			if r := recover(); r != nil {
+				ok = false
+			}
+		}()
+		where := ex.pos(s) + " (auto)"
+		inv := parseClause(fmt.Sprintf("AutoRange: 0 <= $i && ($i <= %s || $i == 0)", b), where)
+		dec := parseExprText(fmt.Sprintf("(%s) - $i", b), where)
+		bind := map[string]*Val{"$i": st.vars[idx]}
+		probe := st.clone()
+		ex.specBoolWith(probe, inv.E, bind)
+		ex.specVal(probe, dec, bind)
+		cp := *ls
+		cp.Invariants = append(append([]*Clause{}, ls.Invariants...), inv)
+		cp.Decreases = dec
+		if ex.loopOverride == nil {
+			ex.loopOverride = map[int]*LoopSpec{}
+		}
+		ex.loopOverride[n] = &cp
+		return true
+	}
+	okSpec()
 }
 
 func (ex *Exec) execFor(st *State, s *ast.ForStmt) *Flow {
@@ -1994,6 +2065,7 @@ func (ex *Exec) execFor(st *State, s *ast.ForStmt) *Flow {
 	}
 	idx := ex.forIdx
 	defer func() { ex.forIdx = saved }()
+	ex.autoCountedLoop(st, n, s, idx)
 	var pre func(*State)
 	if idx != nil {
 		pre = func(b *State) { b.ghost["$i"] = b.vars[idx] }
@@ -2076,12 +2148,7 @@ func (ex *Exec) execLoop(st *State, n int, node ast.Node, cond ast.Expr, body *a
 	for _, u := range ls.BeginUses {
 		ex.applyLemma(bodySt, u, ex.loopBind(bodySt))
 	}
-	for i, a := range ls.Asserts {
-		g := ex.specBoolWith(bodySt, a.E, ex.loopBind(bodySt))
-		ex.oblige(bodySt, "assert", fmt.Sprintf("assert.loop%d.%s", n, clauseName(a, i)), g, a.Src)
-		ex.assume(bodySt, g)
-	}
-	f := ex.execBlock(bodySt, body.List)
+	f := ex.loopBodyWithAsserts(bodySt, body.List, ls.Asserts, n, ex.loopBind)
 	back := ex.merge(append([]*State{f.normal}, f.continues...))
 	if back != nil {
 		if post != nil {
@@ -2125,6 +2192,65 @@ func (ex *Exec) loopBind(st *State) map[string]*Val {
 		return map[string]*Val{"$i": v}
 	}
 	return nil
+}
+
+// loopBodyWithAsserts runs a loop body. The `loop N assert` hints are discharged at the start of the body; a hint that names a
+// local which the body itself declares (`child := g.children[i]` after a range loop was rewritten into an index loop) is
+// discharged right after the statement that declares it. A hint whose names never come into scope is an error, as before.
+func (ex *Exec) loopBodyWithAsserts(bodySt *State, list []ast.Stmt, asserts []*Clause, n int, bind func(*State) map[string]*Val) *Flow {
+	type pend struct {
+		i   int
+		a   *Clause
+		err interface{}
+	}
+	var pending []pend
+	try := func(st *State, i int, a *Clause) (err interface{}) {
+		defer func() {
+			if r := recover(); r != nil {
+				if s, ok := r.(string); ok && strings.Contains(s, "unknown identifier") {
+					err = r
+					return
+				}
+				panic(r)
+			}
+		}()
+		g := ex.specBoolWith(st, a.E, bind(st))
+		ex.oblige(st, "assert", fmt.Sprintf("assert.loop%d.%s", n, clauseName(a, i)), g, a.Src)
+		ex.assume(st, g)
+		return nil
+	}
+	for i, a := range asserts {
+		if err := try(bodySt, i, a); err != nil {
+			pending = append(pending, pend{i, a, err})
+		}
+	}
+	if len(pending) == 0 {
+		return ex.execBlock(bodySt, list)
+	}
+	fl := &Flow{normal: bodySt}
+	for _, s := range list {
+		if fl.normal == nil {
+			break
+		}
+		f2 := ex.execStmt(fl.normal, s)
+		fl.normal = f2.normal
+		fl.breaks = append(fl.breaks, f2.breaks...)
+		fl.continues = append(fl.continues, f2.continues...)
+		if fl.normal != nil && len(pending) > 0 {
+			var still []pend
+			for _, p := range pending {
+				if err := try(fl.normal, p.i, p.a); err != nil {
+					p.err = err
+					still = append(still, p)
+				}
+			}
+			pending = still
+		}
+	}
+	if len(pending) > 0 {
+		panic(pending[0].err)
+	}
+	return fl
 }
 
 func clauseName(c *Clause, i int) string {
@@ -2221,12 +2347,7 @@ func (ex *Exec) execRange(st *State, s *ast.RangeStmt) *Flow {
 		}
 		bodySt.vars[vobj] = ev
 	}
-	for i, a := range ls.Asserts {
-		g := ex.specBoolWith(bodySt, a.E, map[string]*Val{"$i": bodySt.vars[keyObj]})
-		ex.oblige(bodySt, "assert", fmt.Sprintf("assert.loop%d.%s", n, clauseName(a, i)), g, a.Src)
-		ex.assume(bodySt, g)
-	}
-	f := ex.execBlock(bodySt, s.Body.List)
+	f := ex.loopBodyWithAsserts(bodySt, s.Body.List, ls.Asserts, n, func(b *State) map[string]*Val { return map[string]*Val{"$i": b.vars[keyObj]} })
 	back := ex.merge(append([]*State{f.normal}, f.continues...))
 	if back != nil {
 		back.vars[keyObj] = tv(mk("+", SInt, iT, intLit(1)), types.Typ[types.Int])
